@@ -446,8 +446,13 @@ class Interp:
         m = re.match(r"^<(.*) as (?:std::ops::)?(Deref|DerefMut)>::(deref|deref_mut)$", callee, re.S)
         if m:
             tn = self.resolve_type_name(m.group(1))
-            if tn in ("CachePadded", "ManuallyDrop", "Pin", "Box", "Arc"):
+            if tn in ("CachePadded", "ManuallyDrop", "Arc"):
                 used("%s::deref" % tn); return ("val", a(0))
+            if tn in ("Pin", "Box"):
+                # deref of a (pinned) Box stored in shared memory: pointer to its contents
+                v = a(0); used("%s<Box>::deref" % tn)
+                if isinstance(v, Ptr) and v.idx is None: return ("val", Ptr(v.root, v.path + ("*",)))
+                return ("val", v)
         if re.search(r"UnsafeCell(::<.*>)?::(get|raw_get|get_mut)$", callee, re.S): used("UnsafeCell::get"); return ("val", a(0))
         if re.search(r"NonNull(::<.*>)?::(as_ref|as_mut)", callee, re.S):
             # `&NonNull<T>` -> `&T`: reads the pointer value through the reference
@@ -676,7 +681,11 @@ class Interp:
                 if m:
                     dest_ast = parse_place(m.group(1))
                     dt = fr.fn.types.get(dest_ast[1]) if dest_ast[0] == "local" else None
-                    val = self.rvalue(st, m.group(2), dt)
+                    try:
+                        val = self.rvalue(st, m.group(2), dt)
+                    except EncodingError: raise
+                    except Exception as e:
+                        raise EncodingError("%s while evaluating `%s` in %s" % (e, line[:200], fr.fn.name[-80:]))
                     if isinstance(val, tuple) and val and val[0] == "memread":
                         p = val[1]
                         d = self.mem.get(p.key())
